@@ -1,7 +1,7 @@
 //! C14: tiny-std file-system operations judged by a model tree + std::fs as independent observer.
 //!
 //! usage: h_fs <mode> <seed> <budget> <basedir> <fslabel> [chroot]
-//! modes: seq | cda | len | copy | rw | readdir | rmall
+//! modes: seq | cda | len | copy | rw | readdir | rmall | short
 //!
 //! Every evaluated operation is bracketed by two full std::fs snapshots (paths, kinds, contents,
 //! link targets, permission bits) of the sandbox root R = <basedir>/<unique>, which holds the
@@ -26,6 +26,9 @@ extern "C" {
     fn chroot(path: *const std::ffi::c_char) -> i32;
     fn umask(mask: u32) -> u32;
     fn mkfifo(path: *const std::ffi::c_char, mode: u32) -> i32;
+    fn getrlimit(resource: i32, rlim: *mut [u64; 2]) -> i32;
+    fn setrlimit(resource: i32, rlim: *const [u64; 2]) -> i32;
+    fn signal(sig: i32, handler: usize) -> usize;
     fn getpid() -> i32;
 }
 
@@ -73,11 +76,48 @@ fn tft(ft: tfs::FileType) -> &'static str {
 }
 
 /// Run one operation of tiny-std. Nothing but tiny-std code runs inside the catch.
-fn exec(op: &Op, iter_cap: usize) -> Out {
+const RLIMIT_FSIZE: i32 = 1;
+
+/// Run `f` with the soft RLIMIT_FSIZE lowered to `limit` bytes (SIGXFSZ is ignored by the `short`
+/// mode), so that write(2)/copy_file_range(2) on regular files really come back short.
+fn with_fsize<T>(limit: Option<u64>, f: impl FnOnce() -> T) -> T {
+    let Some(l) = limit else {
+        return f();
+    };
+    let mut old = [0u64; 2];
+    unsafe {
+        getrlimit(RLIMIT_FSIZE, &mut old);
+        let new = [l.min(old[1]), old[1]];
+        setrlimit(RLIMIT_FSIZE, &new);
+    }
+    let r = f();
+    unsafe {
+        setrlimit(RLIMIT_FSIZE, &old);
+    }
+    r
+}
+
+fn exec(op: &Op, iter_cap: usize, fsize: Option<u64>) -> Out {
+    with_fsize(fsize, || exec_inner(op, iter_cap))
+}
+
+fn exec_inner(op: &Op, iter_cap: usize) -> Out {
     let r = vh::catch(|| -> Result<Value, tiny_std::Error> {
         match op {
             Op::Write { p, data } => {
                 tfs::write(&ustr(p), data)?;
+                Ok(Value::Unit)
+            }
+            Op::WriteVia { p, data, append } => {
+                use tiny_std::io::Write as _;
+                let mut o = tfs::OpenOptions::new();
+                if *append {
+                    o.append(true).create(true);
+                } else {
+                    o.write(true).create(true);
+                }
+                let mut f = o.open(&ustr(p))?;
+                f.write_all(data)?;
                 Ok(Value::Unit)
             }
             Op::Read { p, as_string } => {
@@ -143,6 +183,8 @@ struct Ctx {
     counters: BTreeMap<String, u64>,
     viol_seen: BTreeMap<String, u32>,
     samples_ok: u32,
+    /// soft RLIMIT_FSIZE in force while the tiny-std call runs (mode `short`)
+    fsize: Option<u64>,
     /// outcome of the most recent run_op: held | viol:<what> | err:<errno> | panic | skipped
     last: String,
     entries_iterated: u64,
@@ -228,7 +270,9 @@ fn errno_name(e: Option<i32>) -> String {
         Some(18) => "EXDEV".into(),
         Some(20) => "ENOTDIR".into(),
         Some(21) => "EISDIR".into(),
+        Some(14) => "EFAULT".into(),
         Some(22) => "EINVAL".into(),
+        Some(27) => "EFBIG".into(),
         Some(36) => "ENAMETOOLONG".into(),
         Some(39) => "ENOTEMPTY".into(),
         Some(40) => "ELOOP".into(),
@@ -330,7 +374,7 @@ fn run_op(cx: &mut Ctx, op: &Op, pre: Option<Snap>, scen: &str) -> Option<Snap> 
     };
     // markers let the driver attribute a death by signal to the tiny-std call that was running
     println!("##B {}", op.json());
-    let out = exec(op, expected_entries * 3 + 1000);
+    let out = exec(op, expected_entries * 3 + 1000, cx.fsize);
     println!("##E");
     let post = match snapshot() {
         Ok(s) => s,
@@ -387,7 +431,7 @@ fn run_op(cx: &mut Ctx, op: &Op, pre: Option<Snap>, scen: &str) -> Option<Snap> 
             let target = &exp.target;
             let mut held = true;
             match op {
-                Op::Write { .. } | Op::Copy { .. } => {
+                Op::Write { .. } | Op::WriteVia { .. } | Op::Copy { .. } => {
                     let want: &[u8] = exp.bytes.as_deref().unwrap_or(&[]);
                     let pfx = if matches!(op, Op::Copy { .. }) { "dest-" } else { "" };
                     for x in &d {
@@ -396,6 +440,9 @@ fn run_op(cx: &mut Ctx, op: &Op, pre: Option<Snap>, scen: &str) -> Option<Snap> 
                             let sig = match post.get(target) {
                                 Some((Node::File(c), _)) if c.len() > want.len() && c.starts_with(want) => {
                                     format!("C14/{opn}/{pfx}not-truncated")
+                                }
+                                Some((Node::File(c), _)) if c.len() < want.len() && want.starts_with(c) => {
+                                    format!("C14/{opn}/{pfx}short-write-reported-ok")
                                 }
                                 Some((Node::File(_), _)) => format!("C14/{opn}/{pfx}content-mismatch"),
                                 _ => format!("C14/{opn}/{pfx}missing-or-wrong-kind"),
@@ -408,7 +455,8 @@ fn run_op(cx: &mut Ctx, op: &Op, pre: Option<Snap>, scen: &str) -> Option<Snap> 
                                 &sig,
                                 op,
                                 &format!(
-                                    "\"target\":{},\"prior\":{},\"want_len\":{},\"got_len\":{},\"scenario\":{}",
+                                    "\"rlimit_fsize\":{},\"target\":{},\"prior\":{},\"want_len\":{},\"got_len\":{},\"scenario\":{}",
+                                    cx.fsize.map_or("null".to_string(), |l| l.to_string()),
                                     vh::jb(target),
                                     vh::js(&exp.prior),
                                     want.len(),
@@ -546,7 +594,19 @@ fn run_op(cx: &mut Ctx, op: &Op, pre: Option<Snap>, scen: &str) -> Option<Snap> 
                 }
             }
             if !matches!(op, Op::Cda { .. } | Op::Rmall { .. } | Op::Readdir { .. }) {
-                vh::distinct(&format!("{opn}/{pshape}/{}/{}", exp.prior, if held { "held" } else { "viol" }));
+                let lim = match (cx.fsize, &exp.bytes) {
+                    (Some(l), Some(b)) => format!(
+                        "/fsize-{}-result-{}",
+                        if l % 4096 == 0 { "pagemult" } else { "odd" },
+                        match (b.len() as u64).cmp(&l) {
+                            std::cmp::Ordering::Less => "below",
+                            std::cmp::Ordering::Equal => "at",
+                            std::cmp::Ordering::Greater => "above",
+                        }
+                    ),
+                    _ => String::new(),
+                };
+                vh::distinct(&format!("{opn}/{pshape}/{}{lim}/{}", exp.prior, if held { "held" } else { "viol" }));
             }
             if held {
                 cx.last = "held".to_string();
@@ -1709,6 +1769,243 @@ fn mode_rmall(cx: &mut Ctx, budget: u64) {
     }
 }
 
+/// Real short transfers. Writers: the soft RLIMIT_FSIZE is lowered around the tiny-std call (SIGXFSZ
+/// ignored), so write(2) / copy_file_range(2) accept only the bytes up to the limit and then fail
+/// with EFBIG; a correct writer helper returns Err, one that drops the count returns Ok with a
+/// prefix. Readers: a fifo fed in small chunks and /proc files (st_size 0, short reads).
+fn mode_short(cx: &mut Ctx, budget: u64) {
+    let rabs = cx.rabs.clone();
+    unsafe {
+        signal(25, 1); // SIGXFSZ -> SIG_IGN
+    }
+    // does the limit bite here at all? (observer's own tools)
+    let bites = with_fsize(Some(10), || std::fs::write("probe", [0u8; 20]).is_err());
+    let _ = std::fs::remove_file("probe");
+    if !bites {
+        vh::inconclusive("RLIMIT_FSIZE does not limit writes in this environment: short-write scenarios skipped");
+    } else {
+        std::fs::create_dir("s").unwrap();
+        std::fs::write("s/keep", b"sentinel").unwrap();
+        std::fs::create_dir("sw").unwrap();
+        let mut limits: Vec<u64> = vec![1, 100, 4095, 4096, 4097, 5000, 65_536, 100_001];
+        if budget >= 100 {
+            limits.extend([2, 511, 512, 513, 8192, 12_345, 131_072, 1_000_003]);
+        }
+        let mut case = 0u64;
+        for &l in &limits {
+            let mut payloads: Vec<u64> = vec![l.saturating_sub(1), l, l + 1, l + 4096, 2 * l + 3, l + 65_536];
+            payloads.retain(|p| *p > 0);
+            payloads.dedup();
+            for &pl in &payloads {
+                for variant in [
+                    "write/absent",
+                    "write/longer",
+                    "write/shorter",
+                    "append/absent",
+                    "append/half-limit",
+                    "append/limit-minus-1",
+                    "overwrite/absent",
+                    "overwrite/longer",
+                    "copy_file/absent",
+                    "copy_file/longer",
+                    "File::copy/absent",
+                    "File::copy/shorter",
+                ] {
+                    case += 1;
+                    let (kind, prior) = variant.split_once('/').unwrap();
+                    let dst = format!("sw/f{case}").into_bytes();
+                    let src = format!("sw/src{case}").into_bytes();
+                    let data = content_of(&mut cx.r, pl as usize, false);
+                    match prior {
+                        "absent" => {}
+                        "longer" => std::fs::write(osp(&dst), content_of(&mut cx.r, pl as usize + 77, false)).unwrap(),
+                        "shorter" => std::fs::write(osp(&dst), content_of(&mut cx.r, (pl / 2) as usize, false)).unwrap(),
+                        "half-limit" => std::fs::write(osp(&dst), content_of(&mut cx.r, (l / 2) as usize, false)).unwrap(),
+                        _ => std::fs::write(osp(&dst), content_of(&mut cx.r, (l - 1) as usize, false)).unwrap(),
+                    }
+                    let abs = case % 2 == 0;
+                    let f = |k: &[u8]| if abs { abs_of(&rabs, k) } else { k.to_vec() };
+                    let op = match kind {
+                        "write" => Op::Write { p: f(&dst), data },
+                        "append" => Op::WriteVia {
+                            p: f(&dst),
+                            data,
+                            append: true,
+                        },
+                        "overwrite" => Op::WriteVia {
+                            p: f(&dst),
+                            data,
+                            append: false,
+                        },
+                        _ => {
+                            std::fs::write(osp(&src), &data).unwrap();
+                            Op::Copy {
+                                src: f(&src),
+                                dst: f(&dst),
+                                via_handle: kind == "File::copy",
+                            }
+                        }
+                    };
+                    cx.fsize = Some(l);
+                    run_op(cx, &op, None, &format!("short-write rlimit_fsize={l} payload={pl} {variant}"));
+                    cx.fsize = None;
+                    let out = cx.last.clone();
+                    cx.count(
+                        &format!(
+                            "short_write/{kind}/payload-{}-limit/{}",
+                            match pl.cmp(&l) {
+                                std::cmp::Ordering::Less => "below",
+                                std::cmp::Ordering::Equal => "at",
+                                std::cmp::Ordering::Greater => "above",
+                            },
+                            out
+                        ),
+                        1,
+                    );
+                    let _ = std::fs::remove_file(osp(&dst));
+                    let _ = std::fs::remove_file(osp(&src));
+                }
+            }
+        }
+    }
+    // ---- short reads: a fifo fed in chunks by a std thread
+    let chunkings: &[&[usize]] = &[&[1], &[1, 2, 3], &[7], &[31, 32, 33], &[4095, 1], &[4096], &[4097, 5], &[65_536, 1], &[100_000]];
+    let totals: &[usize] = if budget >= 100 { &[1, 2, 33, 4096, 4097, 70_001, 300_003] } else { &[1, 33, 4097, 70_001] };
+    for (ci, chunks) in chunkings.iter().enumerate() {
+        for &total in totals {
+            for as_string in [false, true] {
+                let data: B = if as_string {
+                    // multi-byte characters get split across chunk boundaries
+                    "aé€😀\n".bytes().cycle().take(total).collect::<B>()
+                } else {
+                    cx.r.bytes(total)
+                };
+                let valid_utf8 = std::str::from_utf8(&data).is_ok();
+                let name = format!("fifo{ci}-{total}-{as_string}").into_bytes();
+                if !make_fifo(&name) {
+                    vh::inconclusive("mkfifo failed in the sandbox");
+                    return;
+                }
+                let wdata = data.clone();
+                let wchunks: Vec<usize> = chunks.to_vec();
+                let wname = name.clone();
+                let writer = std::thread::spawn(move || {
+                    use std::io::Write as _;
+                    let Ok(mut f) = std::fs::OpenOptions::new().write(true).open(osp(&wname)) else {
+                        return;
+                    };
+                    let mut off = 0;
+                    let mut i = 0;
+                    while off < wdata.len() {
+                        let n = wchunks[i % wchunks.len()].min(wdata.len() - off);
+                        if f.write_all(&wdata[off..off + n]).is_err() {
+                            return;
+                        }
+                        off += n;
+                        i += 1;
+                        if i % 3 == 0 {
+                            std::thread::yield_now();
+                        } else if i % 17 == 0 {
+                            std::thread::sleep(std::time::Duration::from_micros(200));
+                        }
+                    }
+                });
+                let op = Op::Read {
+                    p: if ci % 2 == 0 { name.clone() } else { abs_of(&rabs, &name) },
+                    as_string,
+                };
+                println!("##B {}", op.json());
+                let out = exec(&op, 0, None);
+                println!("##E");
+                let _ = writer.join();
+                let _ = std::fs::remove_file(osp(&name));
+                let chunk_cls = if chunks.iter().all(|c| *c < 64) {
+                    "tiny-chunks"
+                } else if chunks.iter().any(|c| *c > 4096) {
+                    "big-chunks"
+                } else {
+                    "page-chunks"
+                };
+                let opn = op.name();
+                match out {
+                    Out::Panic(m) => {
+                        cx.evals += 1;
+                        cx.viol(&format!("C14/{opn}/panic/fifo"), &op, &format!("\"panic\":{},\"total\":{total}", vh::js(&m)));
+                    }
+                    Out::Err { errno, .. } => {
+                        cx.count(&format!("err/{opn}-fifo/{}{}", errno_name(errno), if as_string && !valid_utf8 { "(cut-char)" } else { "" }), 1);
+                    }
+                    Out::Ok(Value::Bytes(got)) => {
+                        cx.evals += 1;
+                        cx.count("op_read_fifo", 1);
+                        if got != data {
+                            let sig = if got.len() < data.len() && data.starts_with(&got) {
+                                "C14/read/short-read-truncated-result"
+                            } else {
+                                "C14/read/short-read-wrong-content"
+                            };
+                            cx.viol(
+                                sig,
+                                &op,
+                                &format!("\"source\":\"fifo\",\"chunks\":{:?},\"want_len\":{},\"got_len\":{}", chunks, data.len(), got.len()),
+                            );
+                        } else {
+                            cx.count("held_read_fifo", 1);
+                        }
+                        vh::distinct(&format!(
+                            "read-fifo/{}/{chunk_cls}/{}",
+                            if as_string { "string" } else { "bytes" },
+                            if total > 65_536 { "gt-pipe-buffer" } else if total > 4096 { "gt-page" } else { "small" }
+                        ));
+                    }
+                    Out::Ok(_) => {}
+                }
+            }
+        }
+    }
+    // ---- /proc files: st_size 0, content delivered by short reads (not inside a chroot)
+    if !cx.chrooted {
+        for path in ["/proc/version", "/proc/filesystems", "/proc/self/cmdline", "/proc/self/environ", "/proc/sys/kernel/ostype", "/proc/self/limits"] {
+            let Ok(want) = std::fs::read(path) else {
+                continue;
+            };
+            for as_string in [false, true] {
+                let op = Op::Read {
+                    p: path.as_bytes().to_vec(),
+                    as_string,
+                };
+                println!("##B {}", op.json());
+                let out = exec(&op, 0, None);
+                println!("##E");
+                // the observer reads again afterwards: only judge when the file was stable
+                let stable = std::fs::read(path).map(|w| w == want).unwrap_or(false);
+                match out {
+                    Out::Panic(m) => {
+                        cx.evals += 1;
+                        cx.viol("C14/read/panic/proc", &op, &format!("\"panic\":{}", vh::js(&m)));
+                    }
+                    Out::Ok(Value::Bytes(got)) if stable => {
+                        cx.evals += 1;
+                        cx.count("op_read_proc", 1);
+                        if got != want {
+                            cx.viol(
+                                "C14/read/short-read-wrong-content",
+                                &op,
+                                &format!("\"source\":\"proc\",\"want_len\":{},\"got_len\":{}", want.len(), got.len()),
+                            );
+                        } else {
+                            cx.count("held_read_proc", 1);
+                        }
+                        vh::distinct(&format!("read-proc/{}", if as_string { "string" } else { "bytes" }));
+                    }
+                    Out::Err { errno, .. } => cx.count(&format!("err/read-proc/{}", errno_name(errno)), 1),
+                    _ => {}
+                }
+            }
+        }
+    }
+}
+
 fn main() {
     let a = vh::args();
     let base = a.rest.first().cloned().unwrap_or_else(|| "/tmp".into());
@@ -1746,6 +2043,7 @@ fn main() {
         counters: BTreeMap::new(),
         viol_seen: BTreeMap::new(),
         samples_ok: 0,
+        fsize: None,
         last: String::new(),
         entries_iterated: 0,
         largest_dir: 0,
@@ -1758,6 +2056,7 @@ fn main() {
         "rw" => mode_rw(&mut cx, a.budget),
         "readdir" => mode_readdir(&mut cx, a.budget),
         "rmall" => mode_rmall(&mut cx, a.budget),
+        "short" => mode_short(&mut cx, a.budget),
         m => vh::inconclusive(&format!("unknown mode {m}")),
     });
     if let Err(p) = res {
